@@ -1085,7 +1085,8 @@ impl C06 {
                     let first = member[0][i];
                     if first.is_finite() && member.iter().all(|m| m[i].to_bits() == first.to_bits()) {
                         rep.count("steps.unanimous-rows-judged", 1);
-                        let ulp = if case.f32m { (first.abs() as f32 * f32::EPSILON) as f64 } else { first.abs() * f64::EPSILON };
+                        // (spacing of the element type at v: v * eps in the normal range, the smallest subnormal below it)
+                        let ulp = (first.abs() * if case.f32m { f32::EPSILON as f64 } else { f64::EPSILON }).max(q1);
                         // (k copies of an integer number of units add up exactly while the total stays below 2^23 / 2^52 units)
                         let exact_regime = first.abs() * (member.len() as f64) < q1 * if case.f32m { 8_388_608.0 } else { 4_503_599_627_370_496.0 };
                         // (normal range: k sequential additions round at the magnitude of the partial sums, up to k*v, then one
